@@ -150,4 +150,42 @@ func replayUDP(ctx *engine.Ctx, rp engine.Replay) []*engine.Finding {
 	return engine.ReplayCase("udp-inputs", udpScenario(c), rp)
 }
 
-func udpScenarios() []*engine.Scenario { return nil }
+// associations expiring while datagrams of other clients arrive, replies come in and the
+// listener shuts down: the association table is used by the handler loop and by one relay
+// goroutine per association
+func udpRaceInputs() [][]udpx.Op {
+	T := 10 * time.Second
+	open0 := udpx.Op{K: "S", C: 0, Key: 0, T: 1, N: 20}
+	return [][]udpx.Op{
+		{open0, {K: "P", Par: []udpx.Op{{K: "S", C: 0, Key: 0, T: 1, N: 12, D: T}, {K: "S", C: 1, Key: 1, T: 1, N: 12, D: T}, {K: "R", C: 0, T: 1, N: 14, D: T}}}},
+		{open0, {K: "S", C: 1, Key: 1, T: 0, N: 20}, {K: "P", Par: []udpx.Op{{K: "R", C: 1, T: 0, N: 4}, {K: "S", C: 2, Key: 2, T: 1, N: 5}}}, {K: "Q"}},
+	}
+}
+
+func udpScenarios() []*engine.Scenario {
+	var out []*engine.Scenario
+	for i, ops := range udpRaceInputs() {
+		ops := ops
+		tr := &udpx.Trace{}
+		sc := &engine.Scenario{Name: fmt.Sprintf("udp-expiry-race-%d", i), Opt: vrt.Options{Horizon: udpx.Horizon}}
+		sc.Body = func() {
+			udpx.Run(udpx.Config{Keys: udpx.DefaultKeys(), NatTimeout: 10 * time.Second}, ops, tr)
+		}
+		sc.Check = func(x *vrt.Exec) (string, bool, []*engine.Finding) {
+			fs := hk.Generic(x, hk.Opts{Leaks: true, MapRaces: true})
+			if len(fs) == 0 && len(tr.Recovered) > 0 {
+				fs = append(fs, &engine.Finding{Sig: "recovered-panic", Msg: fmt.Sprint(tr.Recovered)})
+			}
+			if len(fs) == 0 && len(tr.Open) > 0 {
+				fs = append(fs, &engine.Finding{Sig: "socket-leak", Msg: fmt.Sprint(tr.Open)})
+			}
+			obs := ""
+			for _, st := range tr.Steps {
+				obs += fmt.Sprintf("%s:%d/%d;", st.Op.K, len(st.TargetRecv), len(st.ClientRecv))
+			}
+			return obs, true, fs
+		}
+		out = append(out, sc)
+	}
+	return out
+}
